@@ -372,17 +372,19 @@ PAIRED_ORACLES = {
     "C03": lambda ent, d: oracle_slices(ent, d),
     "C04": lambda ent, d: oracle_sync(ent),
     "C05": lambda ent, d: oracle_sync(ent) or oracle_pair_adapters(ent) or oracle_decision(ent, d),
+    "C09": lambda ent, d: oracle_sides(ent, d),
     "C10": lambda ent, d: oracle_sides(ent, d),
     "C11": lambda ent, d: oracle_decision(ent, d),
     "C15": lambda ent, d: oracle_sync(ent) or oracle_pdemux(ent, d) or oracle_decision(ent, d),
     "C16": lambda ent, d: oracle_paired_revcomp(ent),
 }
 PAIRED_FOCUS = {
-    "C03": ("action", "adapters", "revcomp", "cut", "qual", "length", "times"),
-    "C04": ("filters", "demux", "combinatorial", "adapters", "qual", "nextseq"),
+    "C03": ("action", "adapters", "revcomp", "cut", "qual", "length", "times", "pairactions:0.2"),
+    "C04": ("filters", "demux", "combinatorial", "adapters", "qual", "nextseq", "sidefiles:0.3"),
+    "C09": ("adapters", "adapters2:0.7", "times", "action"),
     "C05": FOCUS,
     "C10": ("cut", "qual", "length", "adapters", "trimn", "names", "zerocap", "nextseq"),
-    "C11": ("filters", "pairfilter", "adapters"),
+    "C11": ("filters", "pairfilter", "adapters", "onesided:0.3"),
     "C15": ("demux", "combinatorial", "adapters", "times"),
     "C16": ("revcomp", "adapters", "times", "action"),
 }
